@@ -434,7 +434,7 @@ fn snake(name: &str) -> String {
 pub fn check_query(dw: &DataWorld, rw: &RWorld, q: &Query, flags: u32) -> Result<Option<usize>, MErr> {
     let b64 = dw.to_base64();
     let body = "{ }";
-    let raw = if q.kind.is_find() { format!("\"{}\", world, entity, {} {}", b64, q.params_text(), body) } else { format!("\"{}\", world, {} {}", b64, q.params_text(), body) };
+    let raw = if q.kind.is_find() { format!("\"{}\", world, entity, {} {}", b64, q.params_text_varied(), body) } else { format!("\"{}\", world, {} {}", b64, q.params_text_varied(), body) };
     let raw_ts = parse_ts(&raw)?;
     // first parse + predicate collection + probing chain
     let (preds, probing): (Vec<TokenStream>, TokenStream) = match q.kind {
@@ -467,7 +467,7 @@ pub fn check_query(dw: &DataWorld, rw: &RWorld, q: &Query, flags: u32) -> Result
     }
     .map_err(|e| e.to_string());
     let want = q.matches(rw, flags);
-    let desc = || format!("{}!(.., {}) over [{}] (flags {:#b})", q.kind.macro_name(), q.params_text(), rw.archs.iter().map(|a| format!("{}({})", a.name, a.comps.iter().map(|c| c.name.clone()).collect::<Vec<_>>().join(","))).collect::<Vec<_>>().join(" "), flags);
+    let desc = || format!("{}!(.., {}) over [{}] (flags {:#b})", q.kind.macro_name(), q.params_text_varied(), rw.archs.iter().map(|a| format!("{}({})", a.name, a.comps.iter().map(|c| c.name.clone()).collect::<Vec<_>>().join(","))).collect::<Vec<_>>().join(" "), flags);
     match (want, result) {
         (Err(e), Err(msg)) => {
             let ok = match e {
